@@ -482,27 +482,21 @@ def gen_case(rng):
             else:
                 k = rng.choice(cands)
                 op.update(k=k, v=gen_container(rng, kind(spec.vis[k])))
-        # popitem's key is only known after running; keep the shadow conservative by replaying on the real thing later
         ops.append(op)
         if op["op"] == "popitem":
-            # shadow: Python dict order of the visible map is insertion order except after reopen; drop tracking precision
+            # which key popitem takes is only known when the case runs (directory order after a reopen); the shadow
+            # guesses the last inserted one -- a wrong guess can at worst make a later `mutate` unexecutable (case skipped)
             if spec.vis:
                 last = list(spec.vis)[-1]
                 spec.apply(op, {"item": [last, None]})
         else:
             spec.apply(op, None)
     ops.append({"op": rng.choice(["gc_reopen", "gc_reopen", "crash_reopen"])})
-    return _repair({"ops": ops})
+    return {"ops": ops}
 
 
-def _repair(case):
-    """popitem after a reopen/reload pops in directory order, which the generator cannot know: make sure every
-    `mutate` still targets a container by re-checking against a trial run of the specification fed with the real
-    pop results (done lazily: mutate ops whose target is absent/not a container become `set`)."""
-    return case
-
-
-def exhaustive_cases(maxlen):
+def exhaustive_cases(maxlen, both_upto=None):
+    both_upto = maxlen - 1 if both_upto is None else both_upto
     A = [
         {"op": "set", "k": "a", "v": "i:1"},
         {"op": "set", "k": "a", "v": {"t": ["i:1", {"t": ["i:2"]}]}},
@@ -519,8 +513,9 @@ def exhaustive_cases(maxlen):
         {"op": "crash_reopen"},
     ]
     for n in range(0, maxlen + 1):
-        for seq in itertools.product(A, repeat=n):
-            for end in ("gc_reopen", "crash_reopen"):
+        for i, seq in enumerate(itertools.product(A, repeat=n)):
+            # shorter histories get both endings; the longest ones alternate between them
+            for end in ("gc_reopen", "crash_reopen") if n <= both_upto else (("gc_reopen", "crash_reopen")[i % 2],):
                 yield {"ops": [dict(o) for o in seq] + [{"op": end}]}
 
 
@@ -531,18 +526,13 @@ def _cases(ctx):
             yield json.loads(f.read_text())["case"]
     thorough = ctx.tier == "thorough" or ctx.deep
     yield from exhaustive_cases(4 if thorough else 3)
-    for _ in range(ctx.budget(1500, 30000)):
+    for _ in range(ctx.budget(1500, 20000)):
         yield gen_case(ctx.rng)
 
 
 def _nontrivial(case, obs):
     kinds = {o["op"] for o in case["ops"][:-1]}
     return len(case["ops"]) >= 3 and bool(kinds & {"reload", "mutate", "popitem", "clear", "gc_reopen", "crash_reopen", "pop", "del"}) and bool(obs["final"] or any(s.get("content") for s in obs["steps"]))
-
-
-def _valid(case):
-    """the case must be executable: a `mutate` needs a container of the same kind at that key at that moment"""
-    return True
 
 
 def run(ctx, model=True):
